@@ -33,9 +33,13 @@ WHAT = {
     ("scope", "comp"): "comprehensions run in the enclosing scope: the target becomes a local of the function, leaks its last value into closures' cells and stays bound when the element expression raises",
     ("scope", "ucap"): "a closure called while a captured variable is unbound gets a private cell: nonlocal assignments are lost",
     ("scope", "excas"): "`except .. as x` binds x in the function's own table (ignoring global/nonlocal) and removes the variable's cell afterwards",
+    ("scope", "ndflt"): "a default expression of an inner definition that reads a variable of a function further out raises NameError (only names in bodies and decorators are captured)",
     ("scope", "unexplained"): "tracer log is not the one the scoping machine computes",
     ("bind", "unexplained"): "call outcome is not the one Bind yields",
 }
+
+
+DEV = bool(os.environ.get("C03_DEV"))      # development on a shared machine: at most ~4 processes at a time
 
 
 def jvm(gc_threads):
@@ -54,11 +58,11 @@ def run_flat(ctx):
 
 # ------------------------------------------------------------------------------ (T) binding
 def bind_jobs(ctx):
-    nproc = 3
+    nproc = ctx.pick(3, 6)
     nsig = len(B.sigs())
     jobs = []
     for k in range(nproc):
-        jobs.append({"sigs": list(range(k, nsig, nproc)), "nreal": ctx.pick(1, 3),
+        jobs.append({"sigs": list(range(k, nsig, nproc)), "nreal": ctx.pick(1, 2),
                      "py_mod": ctx.pick(8, 1), "py_rem": (ctx.seed + k) % ctx.pick(8, 1),
                      "shapes_slice": [k, nproc], "shapes_py_mod": ctx.pick(4, 1), "corrupt": 12,
                      "out": os.path.join(ctx.scratch, "bind_%d.json" % k)})
@@ -71,9 +75,9 @@ def accept_bind(ctx, path, label):
 
 def bind_pipeline(ctx):
     t0 = time.time()
-    stats = run_workers("harness.drivers.c03_bind", "work_bind", bind_jobs(ctx), ctx.scratch, nproc=3)
+    stats = run_workers("harness.drivers.c03_bind", "work_bind", bind_jobs(ctx), ctx.scratch, nproc=6)
     t1 = time.time()
-    results = parallel([(lambda st=st: accept_bind(ctx, st["out"], "bind")) for st in stats], max_workers=4)
+    results = parallel([(lambda st=st: accept_bind(ctx, st["out"], "bind")) for st in stats], max_workers=1 if DEV else 4)
     return stats, results, (t1 - t0, time.time() - t1)
 
 
@@ -136,7 +140,7 @@ def report_bind(ctx, stats, results):
 # ------------------------------------------------------------------------------ (T) scoping
 def scope_jobs(ctx):
     nproc = 4
-    per = ctx.pick(100, 1400)
+    per = int(os.environ.get("C03_PER", 40)) if DEV else ctx.pick(75, 1000)
     jobs = []
     for k in range(nproc):
         base = ctx.seed * 1000003 + k * per
@@ -154,7 +158,7 @@ def scope_pipeline(ctx):
     jobs = scope_jobs(ctx)
     stats = run_workers("harness.drivers.c03_scope", "work_scope", jobs, ctx.scratch, nproc=4)
     t1 = time.time()
-    results = parallel([(lambda st=st: accept_scope(ctx, st["out"])) for st in stats], max_workers=4)
+    results = parallel([(lambda st=st: accept_scope(ctx, st["out"])) for st in stats], max_workers=1 if DEV else 4)
     return stats, results, (t1 - t0, time.time() - t1)
 
 
@@ -196,8 +200,8 @@ def report_scope(ctx, stats, results, label="scope"):
             mk = marks.get(pid, [])
             for x in mk:
                 marks_count[x] = marks_count.get(x, 0) + 1
-            is_masked = not m["loci"] and not [x for x in mk if x != "sv"]
-            if "sv" in mk:
+            is_masked = not m["loci"] and not [x for x in mk if x not in ("sv", "xdel")]
+            if "sv" in mk or "xdel" in mk:
                 skipped += 1
             if is_masked:
                 masked += 1
@@ -205,7 +209,7 @@ def report_scope(ctx, stats, results, label="scope"):
                 unmasked += 1
             rj = rejected.get(pid)
             if rj is None:
-                if "sv" not in mk and len(accepted) < 40 and not pid.startswith("w:"):
+                if "sv" not in mk and "xdel" not in mk and len(accepted) < 40 and not pid.startswith("w:"):
                     accepted.append((st["out"], pid))
                 continue
             if is_masked:
@@ -227,7 +231,7 @@ def report_scope(ctx, stats, results, label="scope"):
             raise MachineryFailure("selftest: too few accepted scoping recordings to corrupt (%d)" % ncorrupt)
         ctx.cov["selftest_corruptions_rejected"] = ctx.cov.get("selftest_corruptions_rejected", 0) + ncorrupt
     ctx.cov[label] = dict(tot, masked_programs=masked, unmasked_programs=unmasked, masked_rejections=masked_rej,
-                          unmasked_rejections=unmasked_rej, not_demanded_statevar=skipped, distinct_programs=len(shapes),
+                          unmasked_rejections=unmasked_rej, not_demanded=skipped, distinct_programs=len(shapes),
                           rejections_by_clause=why_count, loci_reached=marks_count, depth=depth, constructs=constructs)
     return tot, shapes, accepted
 
@@ -327,6 +331,16 @@ def witnesses():
                                  {"k": "expr", "e": call(N("f1")), "g": 0},
                                  {"k": "ret", "e": N("v0"), "g": 0}]),
         S.new_code("func", nonlocals=["v0"], body=[{"k": "assign", "x": "v0", "e": I(3), "g": 0}])])
+    # ndflt: def f0(): v0 = 1; def f1(): def f2(p0=v0): return p0 ; return f2() ; return f1()
+    add("ndflt", [
+        S.new_code("module", body=[{"k": "def", "x": "f0", "c": 2, "decos": [], "g": 0},
+                                   {"k": "expr", "e": ev(1, call(N("f0"))), "g": 2}]),
+        S.new_code("func", body=[{"k": "assign", "x": "v0", "e": I(1), "g": 0},
+                                 {"k": "def", "x": "f1", "c": 3, "decos": [], "g": 0},
+                                 {"k": "ret", "e": call(N("f1")), "g": 0}]),
+        S.new_code("func", body=[{"k": "def", "x": "f2", "c": 4, "decos": [], "g": 0},
+                                 {"k": "ret", "e": call(N("f2")), "g": 0}]),
+        S.new_code("func", sig=sig(["p0"], 1), dflt=[N("v0")], body=[{"k": "ret", "e": N("p0"), "g": 0}])])
     return ws
 
 
@@ -442,7 +456,7 @@ def main(ctx):
         "scoping: random programs (nested definitions to depth 4, global/nonlocal, closures in loops, bounded recursion, "
         "user decorators, classes, lambda/@pyscript_compile); non-trivial = at least one nested definition and one logged "
         "event; distinct by source text. distinct_nontrivial = pyscript-executed non-trivial calls + distinct programs"
-        % (ctx.pick(1, 3), ctx.pick("a fixed 1/8 sample of the calls (state sample)", "all of them")))
+        % (ctx.pick(1, 2), ctx.pick("a fixed 1/8 sample of the calls (state sample)", "all of them")))
     ctx.cov["timing_s"] = {"bind_exec": round(btime[0], 1), "bind_tlc": round(btime[1], 1), "scope_exec": round(stime[0], 1),
                            "scope_tlc": round(stime[1], 1), "total": round(time.time() - t0, 1)}
     ctx.sample({"part": "bind", "def": B.sig_source(B.sigs()[500]), "call": B.shape_source(B.realise(B.flat_calls()[300], 5))})
@@ -453,7 +467,8 @@ def main(ctx):
         "call-site flattening (*seq, **map) is independent of the callee: Flatten is validated on every written shape against "
         "f(*va, **kw), Bind on every (signature, flattened call) pair with rotating written realisations",
         "argument values are constants (evaluation order among arguments is C01's business); NameError and UnboundLocalError are one family",
-        "name.attr on an unbound plain name is not demanded of pyscript (documented state-variable syntax): such runs are skipped",
+        "name.attr on an unbound plain name is not demanded of pyscript (documented state-variable syntax) and runs in which an "
+        "except-handler deletes its own target are left to C02: such runs are skipped (counted in not_demanded)",
         "with-statement context expressions are constants and except-handlers do not delete/rebind their own target (C02's protocol)",
         "metaclasses, descriptors other than plain methods, generators and async semantics are not generated",
     ]
